@@ -129,14 +129,95 @@ def rule_right_inverse(repo: Repo, rep: Report) -> int:
     return n + 1
 
 
+def inverse_encode_evaluated(repo: Repo):
+    """LinearBlockCodeEncoder.inverse_encode evaluated as a whole (class helpers and apply_blockwise followed, own
+    arithmetic) for three codes - one of them with a parity-check matrix that has a linearly dependent extra row - on
+    1-D, 2-D and 3-D inputs holding one or two blocks, code words and words with errors: the first result must hold k
+    symbols per block and, for every block that is a code word, its message (x R mod 2 with the registered right inverse R);
+    the second must be x H^T mod 2 with ALL rows of H; a last dimension that is not a multiple of n must raise.  Returns (status, detail) or (None, reason)."""
+    from ..constfold import PySeq, Unfoldable
+    from ..frag import FragRaise, FragReturn, coverage_scope, run_fragment
+
+    ci = repo.cls(LIN, "LinearBlockCodeEncoder")
+    fi = repo.method(ci, "inverse_encode")
+    funcs = {f"self.{nm}": m.node for nm, m in ci.methods.items() if nm not in ("forward", "__init__", "inverse_encode")}
+    funcs.update({nm: f.node for nm, f in repo.func(UTL, "apply_blockwise").module.functions.items()})
+    funcs.update({nm: f.node for nm, f in ci.module.functions.items()})
+    codes = (
+        ([[1, 0, 1, 1, 0], [0, 1, 0, 1, 1]], [[1, 0], [0, 1], [0, 0], [0, 0], [0, 0]], [[1, 0, 1, 0, 0], [1, 1, 0, 1, 0], [0, 1, 0, 0, 1], [0, 1, 1, 1, 0]]),
+        ([[1, 1, 1]], [[0], [0], [1]], [[1, 1, 0], [0, 1, 1]]),
+        ([[1, 1, 0, 1], [0, 1, 1, 1], [1, 1, 1, 0]], [[0, 0, 0], [1, 1, 1], [1, 1, 0], [0, 1, 1]], [[1, 0, 1, 1]]),
+    )
+
+    def rows(z):
+        return [z] if not z or not isinstance(z[0], list) else [r_ for t in z for r_ in rows(t)]
+
+    def shape(z):
+        return (len(z),) + shape(z[0]) if isinstance(z, list) and z else ((0,) if isinstance(z, list) else ())
+
+    cases = 0
+    scope = coverage_scope()
+    scope.__enter__()
+    try:
+        for G, R, H in codes:
+            k, n = len(G), len(G[0])
+            assert [[sum(G[i][t] * R[t][j] for t in range(n)) % 2 for j in range(k)] for i in range(k)] == [[int(i == j) for j in range(k)] for i in range(k)]
+            attrs0 = {"self.generator_right_inverse": R, "self._generator_right_inverse": R, "self.check_matrix": H, "self._check_matrix": H, "self.generator_matrix": G, "self.code_length": n, "self._length": n, "self.code_dimension": k, "self._dimension": k, "self.redundancy": n - k, "self._redundancy": n - k, "self.parity_bits": n - k}
+            words = [[(sum(G[i][t] for i in range(k) if (m_ >> i) & 1) + (1 if t == e_ else 0)) % 2 for t in range(n)] for m_, e_ in ((1, -1), ((1 << k) - 1, -1), (1, 0), (0, n - 1), ((1 << k) - 1, 1))]
+            inputs = [words[0] + words[2], [words[1], words[3]], [[words[4] + words[0]], [words[2] + words[1]]], list(words[3])]
+            for x in inputs:
+                try:
+                    run_fragment(fi.body, {"x": [list(r_) if isinstance(r_, list) else r_ for r_ in x], "args": [], "kwargs": {}}, dict(attrs0), funcs=funcs, materialise=True, max_steps=400000, attrs_live=True)
+                    return None, "no value returned"
+                except FragReturn as ret:
+                    got = ret.value
+                except FragRaise:
+                    return VIOLATION, f"n = {n}: a valid input of shape {shape(x)} is rejected"
+                except (Unfoldable, TypeError, IndexError, ValueError, KeyError) as exc:
+                    return None, f"not evaluable ({exc})"
+                if not (isinstance(got, (PySeq, list, tuple)) and len(got) == 2 and all(isinstance(g_, list) for g_ in got)):
+                    return None, "the result is not a pair of blocks"
+                dec, syn = got[0], got[1]
+                want_d = [[sum(row[j * n + t] * R[t][c] for t in range(n)) % 2 for j in range(len(row) // n) for c in range(k)] for row in rows(x)]
+                want_s = [[sum(row[j * n + t] * H[c][t] for t in range(n)) % 2 for j in range(len(row) // n) for c in range(len(H))] for row in rows(x)]
+                nh = len(H)
+                clean = [[not any(ws[j * nh:(j + 1) * nh]) for j in range(len(ws) // nh)] for ws in want_s]  # blocks that are code words: only there the message is prescribed
+                gd = rows(dec)
+                same = len(gd) == len(want_d) and all(len(g_) == len(w_) and all(g_[j * k:(j + 1) * k] == w_[j * k:(j + 1) * k] for j in range(len(w_) // k) if c_[j]) for g_, w_, c_ in zip(gd, want_d, clean))
+                if not same or shape(dec)[:-1] != shape(x)[:-1]:
+                    return VIOLATION, f"G = {G}, H with {len(H)} rows, input of shape {shape(x)}: the decoded part is {rows(dec)[0]} (shape {shape(dec)}); x R mod 2, block by block, is {want_d[0]} - k = {k} message symbols per block (encode followed by inverse_encode does not return the message)"
+                if rows(syn) != want_s or shape(syn)[:-1] != shape(x)[:-1]:
+                    return VIOLATION, f"G = {G}, H with {len(H)} rows, input of shape {shape(x)}: the syndrome part is {rows(syn)[0]} (shape {shape(syn)}); x H^T mod 2, block by block, is {want_s[0]}"
+                cases += 1
+            try:
+                run_fragment(fi.body, {"x": [0] * (n + 1), "args": [], "kwargs": {}}, dict(attrs0), funcs=funcs, materialise=True, max_steps=100000, attrs_live=True)
+                return VIOLATION, "a last dimension that is not a multiple of n is not rejected"
+            except FragRaise:
+                pass
+            except FragReturn:
+                return VIOLATION, f"an input of length {n + 1} (not a multiple of n = {n}) is answered instead of rejected"
+            except (Unfoldable, TypeError, IndexError, ValueError, KeyError, AssertionError) as exc:
+                return None, f"invalid length not evaluable ({exc})"
+    finally:
+        scope.__exit__()
+    gap = scope.note([fi.node] + [m.node for nm, m in ci.methods.items() if nm == "calculate_syndrome"])
+    if gap:
+        return None, gap
+    return OK, f"{cases} inputs (1-D / 2-D / 3-D, one and two blocks, code words and words with one error) for three codes, one with a dependent parity-check row: (x R mod 2, x H^T mod 2) block by block; invalid length rejected"
+
+
 def rule_inverse_form(repo: Repo, rep: Report) -> int:
     ci = repo.cls(LIN, "LinearBlockCodeEncoder")
     inv = repo.method(ci, "inverse_encode")
-    block_matmul_rule(rep, "INVERSE-FORM", inv, "decode_fn", "self.generator_right_inverse", False, {"self.code_length", "self._length"}, {"self.code_dimension", "self._dimension"}, "inverse: m = x.R mod 2")
-    rets = returns_of(inv.node)
-    syn = [s for s in stmts_of(inv.body) if isinstance(s, ast.Assign) and unparse(s.targets[0]) == "syndrome"]
-    ok = len(rets) == 1 and unparse(rets[0].value) == "(decoded, syndrome)" and len(syn) == 1 and unparse(syn[0].value) == "self.calculate_syndrome(x)"
-    rep.expect(ok, "INVERSE-FORM", inv, f"returns {unparse(rets[0].value) if rets else '?'} with syndrome = {unparse(syn[0].value) if syn else '?'}", "the decoded message together with the syndrome of the same word", "inverse_encode does not return (message, syndrome of the input)")
+    est_, ed_ = inverse_encode_evaluated(repo)
+    if est_ is not None:
+        rep.add("INVERSE-FORM", inv, "inverse_encode evaluated as a whole: (x R mod 2, x H^T mod 2) block by block", est_, ed_, node=inv.node)
+    else:
+        block_matmul_rule(rep, "INVERSE-FORM", inv, "decode_fn", "self.generator_right_inverse", False, {"self.code_length", "self._length"}, {"self.code_dimension", "self._dimension"}, "inverse: m = x.R mod 2")
+        rets = returns_of(inv.node)
+        syn = [s for s in stmts_of(inv.body) if isinstance(s, ast.Assign) and unparse(s.targets[0]) == "syndrome"]
+        ok = len(rets) == 1 and unparse(rets[0].value) == "(decoded, syndrome)" and len(syn) == 1 and unparse(syn[0].value) == "self.calculate_syndrome(x)"
+        rep.expect(ok, "INVERSE-FORM", inv, f"returns {unparse(rets[0].value) if rets else '?'} with syndrome = {unparse(syn[0].value) if syn else '?'}", "the decoded message together with the syndrome of the same word", "inverse_encode does not return (message, syndrome of the input)")
     init = repo.method(ci, "__init__")
     regs = {c.args[0].value: unparse(c.args[1]) for c in ast.walk(init.node) if isinstance(c, ast.Call) and attr_chain(c.func) == "self.register_buffer" and len(c.args) >= 2 and isinstance(c.args[0], ast.Constant)}
     a = [s for s in stmts_of(init.body) if isinstance(s, ast.Assign) and attr_chain(s.targets[0]) == "self._generator_right_inverse"]
